@@ -480,15 +480,8 @@ func runT4(p *an.Prog, r *an.Result) {
 		return
 	}
 	isHyphenTest := func(v ssa.Value) bool {
-		b, ok := v.(*ssa.BinOp)
-		if !ok || b.Op != token.EQL {
-			return false
-		}
-		if c, ok := an.ConstInt(b.Y); ok && c == 45 {
-			_, _, isIdx := stringIndex(b.X)
-			return isIdx
-		}
-		return false
+		_, _, ok := hyphenTestOf(v)
+		return ok
 	}
 	hyphenGuard := func(in ssa.Instruction) bool {
 		for _, g := range an.GuardsAtInstr(in) {
@@ -1039,42 +1032,55 @@ func runT7(p *an.Prog, r *an.Result) {
 		}
 		return an.ConstInt(ia.Index)
 	}
-	armOf := func(in ssa.Instruction) int64 {
-		var k0 int64 = -1
-		for _, g := range an.GuardsAtInstr(in) {
-			if gb, ok := g.Cond.(*ssa.BinOp); ok && gb.Op == token.EQL && g.True {
-				for _, side := range []ssa.Value{gb.X, gb.Y} {
-					if k, ok := delimIndex(side); ok {
-						k0 = k
-					}
-				}
-			}
-		}
-		return k0
+	tp := theTokenPat(p)
+	if tp.problem != "" {
+		r.Bad(name, "token pattern not readable", an.FuncPos(fn), tp.problem)
+		return
 	}
-	// check one hyphen test: the BinOp b (in function tf), evaluated for the call site site
-	// (nil when the test is in Scan itself) with parameters bound to args
-	check := func(b *ssa.BinOp, tf *ssa.Function, site *ssa.Call) {
-		sx, idx, _ := stringIndex(b.X)
+	// the alternative of the pattern an instruction handles, with its opening and closing delimiter
+	armOf := func(in ssa.Instruction) (int64, int64) {
+		a := tp.armAt(in, delimIndex)
+		if a == nil || len(a.delims) < 2 {
+			return -1, -1
+		}
+		return a.delims[0], a.delims[len(a.delims)-1]
+	}
+	// check one hyphen test (the value v of function tf, testing str[idx]), evaluated for the call site
+	// site (nil when the test is in Scan itself) with parameters bound to the arguments
+	check := func(v ssa.Value, sx ssa.Value, lf0 linForm, tf *ssa.Function, site *ssa.Call) {
 		bind := func(v ssa.Value) ssa.Value {
-			if par, ok := v.(*ssa.Parameter); ok && site != nil {
-				for i, pp := range tf.Params {
-					if pp == par && i < len(site.Call.Args) {
-						return site.Call.Args[i]
-					}
+			if site != nil {
+				if cv := toCaller(tf, site, v); cv != nil {
+					return cv
+				}
+				if cv := toCaller(tf, site, an.Deref(v)); cv != nil {
+					return cv
 				}
 			}
 			return v
 		}
-		var at ssa.Instruction = b
+		var at ssa.Instruction = v.(ssa.Instruction)
 		if site != nil {
 			at = site
 		}
 		r.Counts["hyphen tests"]++
-		k0 := armOf(at)
-		lf := linOf(idx, 0)
+		kOpen, kClose := armOf(at)
+		// the index with parameters replaced by what the call site passes
+		lf := linForm{coef: map[ssa.Value]int64{}, c: lf0.c}
+		for a, cf := range lf0.coef {
+			if _, isPar := a.(*ssa.Parameter); isPar && site != nil {
+				sub := linOf(bind(a), 0)
+				lf.c += cf * sub.c
+				for x, c2 := range sub.coef {
+					lf.coef[x] += cf * c2
+				}
+				continue
+			}
+			lf.coef[a] += cf
+		}
 		var ks []int64
 		srcLen, okForm := false, true
+		src := an.Deref(bind(sx))
 		for a, cf := range lf.coef {
 			if cf == 0 {
 				continue
@@ -1094,13 +1100,13 @@ func runT7(p *an.Prog, r *an.Result) {
 				ks = append(ks, k*10+cf+5)
 				continue
 			}
-			if eqVal(an.Deref(arg), an.Deref(sx)) && cf == 1 {
+			if eqVal(an.Deref(arg), src) && cf == 1 {
 				srcLen = true
 				continue
 			}
 			okForm = false
 		}
-		construct := describe(p, sx) + "[" + describe(p, idx) + "] == '-'"
+		construct := describe(p, sx) + "[" + lf0.String(p) + "] == '-'"
 		if site != nil {
 			construct += " via " + nonEmpty(an.CallName(&site.Call), "helper")
 		}
@@ -1108,28 +1114,28 @@ func runT7(p *an.Prog, r *an.Result) {
 		switch {
 		case !okForm || len(ks) != 1:
 			r.Bad(name, construct, pos, "the index tested for the hyphen is not derived from the length of a delimiter: it is right only for delimiters of one particular length")
-		case !srcLen && lf.c == 0 && ks[0] == k0*10+1+5:
-			r.OK(name, construct, pos, fmt.Sprintf("left marker at index len(delims[%d])", k0))
-		case srcLen && lf.c == -1 && ks[0] == (k0+1)*10-1+5:
-			r.OK(name, construct, pos, fmt.Sprintf("right marker at index len(source)-len(delims[%d])-1", k0+1))
+		case kOpen < 0:
+			r.Bad(name, construct, pos, "no dominating test says which alternative of the token pattern matched here (a capture group that took part, or the opening delimiter)")
+		case !srcLen && lf.c == 0 && ks[0] == kOpen*10+1+5:
+			r.OK(name, construct, pos, fmt.Sprintf("left marker at index len(delims[%d]), the delimiter that opens this alternative of the pattern", kOpen))
+		case srcLen && lf.c == -1 && ks[0] == kClose*10-1+5:
+			r.OK(name, construct, pos, fmt.Sprintf("right marker at index len(source)-len(delims[%d])-1, the delimiter that closes this alternative of the pattern", kClose))
 		default:
-			r.Bad(name, construct, pos, fmt.Sprintf("the hyphen index does not use the delimiter of this side of this kind of token (arm of delims[%d])", k0))
+			r.Bad(name, construct, pos, fmt.Sprintf("the hyphen index does not use the delimiter of this side of this kind of token (alternative delims[%d]...delims[%d])", kOpen, kClose))
 		}
 	}
 	for _, tf := range unitOf(fn) {
 		an.EachInstr(tf, func(in ssa.Instruction) {
-			b, ok := in.(*ssa.BinOp)
-			if !ok || b.Op != token.EQL {
+			v, ok := in.(ssa.Value)
+			if !ok {
 				return
 			}
-			if c, ok := an.ConstInt(b.Y); !ok || c != 45 {
-				return
-			}
-			if _, _, ok := stringIndex(b.X); !ok {
+			sx, lf, ok := hyphenTestOf(v)
+			if !ok {
 				return
 			}
 			if tf == fn {
-				check(b, tf, nil)
+				check(v, sx, lf, tf, nil)
 				return
 			}
 			// a helper closure: one instance per call site in Scan
@@ -1137,11 +1143,11 @@ func runT7(p *an.Prog, r *an.Result) {
 			an.EachInstr(fn, func(x ssa.Instruction) {
 				if c, ok := x.(*ssa.Call); ok && c.Call.StaticCallee() == tf {
 					n++
-					check(b, tf, c)
+					check(v, sx, lf, tf, c)
 				}
 			})
 			if n == 0 {
-				r.Bad(name, "hyphen test in an uncalled helper", b.Pos(), "")
+				r.Bad(name, "hyphen test in an uncalled helper", in.Pos(), "")
 			}
 		})
 	}
@@ -1524,6 +1530,11 @@ func runT10(p *an.Prog, r *an.Result) {
 	tr, _ := pkgConst(p, "parser", "TrimRightTokenType")
 	obj, _ := pkgConst(p, "parser", "ObjTokenType")
 	tag, _ := pkgConst(p, "parser", "TagTokenType")
+	tp := theTokenPat(p)
+	if tp.problem != "" {
+		r.Bad(name, "token pattern not readable", an.FuncPos(fn), tp.problem)
+		return
+	}
 	type site struct {
 		typ int64
 		st  ssa.Instruction // where the token is appended to the token list
@@ -1557,15 +1568,8 @@ func runT10(p *an.Prog, r *an.Result) {
 		}
 		// the arm: blocks between the arm entry and the join; trim sites in the same arm are those
 		// that share the arm's dominating delimiter comparison
-		armGuard := func(in ssa.Instruction) ssa.Value {
-			for _, g := range an.GuardsAtInstr(in) {
-				if gb, ok := g.Cond.(*ssa.BinOp); ok && gb.Op == token.EQL && g.True {
-					if _, isSlice := gb.X.(*ssa.Slice); isSlice {
-						return gb
-					}
-				}
-			}
-			return nil
+		armGuard := func(in ssa.Instruction) *patAlt {
+			return tp.armAt(in, t10DelimIndex)
 		}
 		ag := armGuard(ms)
 		var lefts, rights []ssa.Instruction
@@ -1755,4 +1759,82 @@ func symbolicString(v ssa.Value, depth int) ([]patPiece, bool) {
 		return []patPiece{{hole: v}}, true
 	}
 	return nil, false
+}
+
+// t10DelimIndex: v is delims[k], or a prefix of the matched text as long as delims[k] (the two
+// sides of the older arm test data[ts:ts+len(delims[k])] == delims[k]).
+func t10DelimIndex(v ssa.Value) (int64, bool) {
+	u, ok := an.Deref(v).(*ssa.UnOp)
+	if !ok {
+		return 0, false
+	}
+	ia, ok := u.X.(*ssa.IndexAddr)
+	if !ok {
+		return 0, false
+	}
+	if bt, ok := u.Type().Underlying().(*types.Basic); !ok || bt.Info()&types.IsString == 0 {
+		return 0, false
+	}
+	return an.ConstInt(ia.Index)
+}
+
+// hyphenTestOf: v tests whether one byte of a string is a hyphen: s[i] == '-',
+// strings.HasPrefix(s[i:], "-"), strings.HasSuffix(s[:j], "-") (the byte j-1). It returns the string and
+// the index as a linear form.
+func hyphenTestOf(v ssa.Value) (ssa.Value, linForm, bool) {
+	switch x := v.(type) {
+	case *ssa.BinOp:
+		if x.Op != token.EQL {
+			break
+		}
+		for _, pair := range [][2]ssa.Value{{x.X, x.Y}, {x.Y, x.X}} {
+			if c, ok := an.ConstInt(pair[1]); ok && c == 45 {
+				if sx, idx, ok := stringIndex(pair[0]); ok {
+					return sx, linOf(idx, 0), true
+				}
+			}
+		}
+	case *ssa.Call:
+		cn := an.CallName(&x.Call)
+		if cn != "strings.HasPrefix" && cn != "strings.HasSuffix" {
+			break
+		}
+		if s, ok := an.ConstString(x.Call.Args[1]); !ok || s != "-" {
+			break
+		}
+		sl, ok := x.Call.Args[0].(*ssa.Slice)
+		if !ok {
+			break
+		}
+		if cn == "strings.HasPrefix" && sl.Low != nil && sl.High == nil {
+			return sl.X, linOf(sl.Low, 0), true
+		}
+		if cn == "strings.HasSuffix" && sl.Low == nil && sl.High != nil {
+			lf := linOf(sl.High, 0)
+			lf.c--
+			return sl.X, lf, true
+		}
+	}
+	return nil, linForm{}, false
+}
+
+func (lf linForm) String(p *an.Prog) string {
+	var parts []string
+	for a, cf := range lf.coef {
+		switch cf {
+		case 0:
+		case 1:
+			parts = append(parts, "+"+describe(p, a))
+		case -1:
+			parts = append(parts, "-"+describe(p, a))
+		default:
+			parts = append(parts, fmt.Sprintf("%+d*%s", cf, describe(p, a)))
+		}
+	}
+	sort.Strings(parts)
+	out := strings.TrimPrefix(strings.Join(parts, ""), "+")
+	if lf.c != 0 || out == "" {
+		out += fmt.Sprintf("%+d", lf.c)
+	}
+	return out
 }
